@@ -32,6 +32,8 @@ mod put_validation;
 mod python;
 mod quote;
 mod replication;
+#[cfg(maidsafe_safe_network_verif)]
+pub mod verif_hooks;
 
 pub use self::{
     event::{NodeEvent, NodeEventsChannel, NodeEventsReceiver},
